@@ -182,6 +182,31 @@ def run(prog, chk):
                 for c in ast.walk(pc.handlers[0])) and not any(isinstance(x, (ast.Return, ast.Break, ast.Raise)) for x in ast.walk(pc.handlers[0]))
     chk.ob("R4.loop-leaves-only-on-read-failure", "start_subsystem", ok, st.loc,
            "reading failure returns; any error while processing is answered with FAILURE and the loop goes on")
+    # the catch-all is the last resort for requests _process cannot even name (unknown command numbers raise in its
+    # first log line): it must itself be total up to its FAILURE reply - no lookup under the command number, no other
+    # subscript on a table, before the reply goes out (the logging helper formats what it is given and never raises)
+    if len(trys) == 2 and trys[1].handlers:
+        hb = trys[1].handlers[0].body
+        before = []
+        for s_ in hb:
+            if isinstance(s_, ast.Try) and any(M.is_call(c, name="self._send_status") for c in ast.walk(s_)):
+                break
+            before.append(s_)
+        risky = [unparse(x)[:40] for s_ in before for x in ast.walk(s_) if isinstance(x, ast.Subscript) and isinstance(x.ctx, ast.Load)
+                 and not isinstance(x.slice, (ast.Slice, ast.Constant))]
+        chk.ob("R4.catch-all-is-total-before-it-replies", "start_subsystem", not risky, st.loc,
+               "statements of the handler before the fallback reply: %d, partial lookups: %s" % (len(before), risky or "none"))
+    # no reply from a `finally:` - it runs on the exception path too, and there the catch-all replies as well (two
+    # responses to one request)
+    pr_ = prog.func("SFTPServer._process")
+    infinal = []
+    for t_ in walk_no_defs(pr_.node):
+        if isinstance(t_, ast.Try):
+            for s_ in t_.finalbody:
+                for c in ast.walk(s_):
+                    if isinstance(c, ast.Call) and (dotted(c.func) or "") in ("self._send_status", "self._response", "self._send_packet", "self._send_handle_response"):
+                        infinal.append("%s:%d" % (pr_.module.path, c.lineno))
+    chk.ob("R1.no-reply-in-finally", "_process", not infinal, pr_.loc, "replies inside finally blocks: %s" % (infinal or "none"))
 
     # R5 client ---------------------------------------------------------------------------------
     n5 = 0
